@@ -3,11 +3,20 @@ from props._kt import *
 from lib.core import Verus, VERUS_DIR
 from lib import vx
 from verus import c14_session_overlay as so
+from verus import c14_prefix_merge as pm
+
+
+def build_pm():
+    text, located, dropped, raws = pm.build()
+    d = os.path.join(VERUS_DIR, 'c14_prefix_merge')
+    os.makedirs(d, exist_ok=True)
+    vx.write_diff(raws, os.path.join(d, 'repo_vs_verified.diff'))
+    return text, located, dropped
 
 PROPERTY = 'C14'
 LEVEL = 'proof'
 SF = 'crates/aranya-runtime/src/client/session.rs'
-HARNESS_FILES = ['verus/c14_session_overlay.py', 'kani/aranya-runtime/session.rs', 'kani/aranya-runtime/mocks.rs']
+HARNESS_FILES = ['verus/c14_session_overlay.py', 'verus/c14_prefix_merge.py', 'kani/aranya-runtime/session.rs', 'kani/aranya-runtime/mocks.rs']
 
 
 def build():
@@ -19,6 +28,10 @@ def build():
 
 
 UNITS = [
+    Verus('c14_prefix_merge', build_pm, min_verified=6,
+          contract='session prefix queries — QueryIterator::next (the merge of committed facts and session writes, extracted; sequences of any length): each call returns the first fact of '
+                   'merged(rest of committed, rest of session writes) and leaves iterators whose merge is the remainder, where merged is the ascending merge in which a session entry replaces the committed '
+                   'entry with the same key and a tombstone yields nothing; terminates; the Bug exit is unreachable'),
     Verus('c14_session_overlay', build, min_verified=10,
           contract='SessionPerspective over the nested BTreeMap overlay (vstd model), any committed facts, any overlay size: insert => the key reads the value; delete => the key reads None whatever the '
                    'committed facts or earlier session writes hold; every other key unchanged; query = overlay entry if present else committed fact; overlay == replay(fact_log) invariant; '
@@ -29,14 +42,14 @@ UNITS = [
 ]
 TRUSTED = ['vstd BTreeMap model (insert/get/get_mut/remove/contains_key/clear)', 'R6 type shims: String/Keys/Bytes are opaque ordered values; Arc<BTreeMap> is the map; the perspective owns the session',
            'committed facts (base_facts.query) are an arbitrary fixed function'] + KT_TRUSTED
-ASSUMPTIONS = ['prefix queries (QueryIterator / PrefixIter sorted merge with tombstones) are NOT covered: iterator adapters and Yoke are outside both verifiers\' reach '
-               '(the 1x1 merge took 129 s in CBMC, 2x2 did not finish)',
+ASSUMPTIONS = ['prefix merge: the two input streams are abstract (PrefixIter / Yoke / the committed QueryIterator yield the entries under the prefix in ascending key order — assumed; '
+               'the committed side is proved in C12); when the committed side yields an I/O error nothing is claimed beyond returning it',
                'Session::receive trace is not under contract (same shape as action)']
 EXPLANATION = 'Exact-query overlay semantics and revert of the ephemeral session proved unbounded by Verus on the extracted methods; failure atomicity by a Kani trace contract.'
 MANIFEST = {
     'text': 'Proof (exact queries): for any committed facts and any sequence of session writes, the extracted SessionPerspective insert/delete/query/revert satisfy the flat-map overlay model '
             '(deleted facts are never visible, other keys untouched, revert restores the checkpoint view) — unbounded, by per-operation contracts + invariant. '
-            'A failed session action rolls everything back (Kani trace contract). Prefix-query merging is not covered.',
-    'note': 'Function text extracted each run; sub-expression rewrites R8/R12-R15 and type shims listed in the evidence. Prefix iteration not covered.',
+            'Prefix queries: the merge iterator yields exactly the ascending merge with session entries replacing committed ones and deleted facts omitted (Verus, any length). A failed session action rolls everything back (Kani trace contract).',
+    'note': 'Function text extracted each run; sub-expression rewrites R8/R12-R15 and type shims listed in the evidence. ',
     'technique': 'Verus on extracted SessionPerspective methods over vstd BTreeMap specs + Kani trace contract',
 }
